@@ -76,6 +76,8 @@ type State struct {
 	dead    bool
 	epoch   int
 	scratch bool
+	loopIn  map[string]Term
+	loopSnap map[int]*State
 }
 
 func (s *State) clone() *State {
@@ -117,6 +119,18 @@ func (s *State) clone() *State {
 	for k, v := range s.entered {
 		n.entered[k] = v
 	}
+	if s.loopSnap != nil {
+		n.loopSnap = make(map[int]*State, len(s.loopSnap))
+		for k, v := range s.loopSnap {
+			n.loopSnap[k] = v
+		}
+	}
+	if s.loopIn != nil {
+		n.loopIn = make(map[string]Term, len(s.loopIn))
+		for k, v := range s.loopIn {
+			n.loopIn[k] = v
+		}
+	}
 	n.lines = append([]string(nil), s.lines...)
 	n.defers = append([]*ssa.Defer(nil), s.defers...)
 	n.pathID = append([]string(nil), s.pathID...)
@@ -155,6 +169,7 @@ type Unit struct {
 	usedExternal map[string]bool
 	usedContracts map[string]bool
 	sweep bool // zero-annotation sweep: only safety obligations matter
+	axiomsUsed map[string]bool
 }
 
 func (u *Unit) note(s string) {
